@@ -71,13 +71,15 @@ class Row:
 
 
 class Table:
-    def __init__(self, ctx, fi: FuncInfo, inline_depth: int = 3):
+    def __init__(self, ctx, fi: FuncInfo, inline_depth: int = 3, body: Optional[List[ast.stmt]] = None,
+                 env0: Optional[Dict[str, ast.expr]] = None):
         self.ctx = ctx
         self.fi = fi
         self.ex: Expander = ctx.expand
         self.inline_depth = inline_depth
         self._rows_memo: Dict[str, List[Row]] = {}
-        self.rows: List[Row] = self.rows_of(fi, {})
+        self._body = body     # analyse this statement list of fi (e.g. an exception handler's body) instead of the whole body
+        self.rows: List[Row] = self.rows_of(fi, dict(env0 or {}))
         self.vars = Vars()
         self._collect_vars()
 
@@ -156,7 +158,8 @@ class Table:
         def fall(env, conds):
             rows.append(Row(list(conds), "fall", ast.Constant(None), fi, fi.node))
 
-        body = [s for s in fi.node.body if not (isinstance(s, ast.Expr) and isinstance(s.value, ast.Constant))]
+        body = [s for s in (self._body if self._body is not None else fi.node.body)
+                if not (isinstance(s, ast.Expr) and isinstance(s.value, ast.Constant))]
         block(body, dict(env0), [], fall)
         return rows
 
